@@ -306,7 +306,7 @@ def robustness(report, drv, backend, auth, rng, tier):
             keep = [x for x in items if x[0] in ("raw-text", "hostile-signed", "whole", "cmd-pos")]
             rest = [x for x in items if x not in keep]
             rng.shuffle(rest)
-            items = keep + rest[:150]
+            items = keep + rest[:400]
         gate_lines = []
         victim = Conn(relay)
         seq = 0
@@ -391,6 +391,50 @@ def robustness(report, drv, backend, auth, rng, tier):
         relay.close()
 
 
+def stalled_reader(report, backend):
+    """one subscriber stops reading its socket while more events than max_limit match its subscription; everybody else
+    must keep being served, and the relay must be fine after the stalled client has gone"""
+    relay = Relay(backend)
+    try:
+        w = Conn(relay, remote_addr="6.6.6.6")
+        w.send(["REQ", "firehose", {"kinds": [1]}])
+        q = Conn(relay, remote_addr="5.5.5.5")
+        q.send(["REQ", "mine", {"kinds": [1]}])
+        p = Conn(relay, remote_addr="4.4.4.4")
+        w.stalled = True
+        n = common.MAX_LIMIT + 12
+        payload = {"backend": backend, "case": "stalled-reader", "events": n}
+        for i in range(n):
+            ev = relay.signed_event(KEYS[1], kind=1, content="flood %d %s" % (i, backend), created_at=T0 + 5000 + i)
+            nq = len(q.out)
+            ok = p.send_event(ev)
+            got = any(isinstance(f, list) and f[0] == "EVENT" and f[2]["id"] == ev["id"] for f in q.frames(nq))
+            if ok is not True or not got:
+                report.property_failure("%s: while another subscriber was not reading its socket, EVENT #%d of a well-behaved connection was %s"
+                                        % (backend, i, "not answered / refused" if ok is not True else "not pushed to a reading subscriber"),
+                                        payload, None)
+                break
+        w.inbox.put_nowait(DISCONNECT)
+        relay.settle()
+        ev = relay.signed_event(KEYS[1], kind=1, content="after the stalled client left " + backend, created_at=T0 + 9000)
+        nq = len(q.out)
+        ok = p.send_event(ev)
+        if ok is not True or not any(isinstance(f, list) and f[0] == "EVENT" and f[2]["id"] == ev["id"] for f in q.frames(nq)):
+            report.property_failure("%s: after the stalled client disconnected, a fresh EVENT was not accepted and pushed" % backend, payload, None)
+        w._unstall.set()
+        relay.settle()
+        for cn in (p, q):
+            cn.close()
+        if not w.done:
+            report.property_failure("%s: the handler of the stalled client did not end after its disconnect" % backend, payload, None)
+        if any(v for v in relay.open_subscriptions().values()):
+            report.property_failure("%s: subscriptions survive their connections (stalled reader)" % backend, payload, None)
+        report.case(("stalled", backend), nontrivial=True, sample={"case": "stalled-reader", "backend": backend, "events": n})
+        report.count("stalled_reader_runs")
+    finally:
+        relay.close()
+
+
 KEYS = []
 
 
@@ -406,13 +450,15 @@ def run(report, tier, seed):
         "command, each filter position and field, each event / AUTH-event field (also missing), tag and tag item positions; validly "
         "signed events with hostile field types and sizes; 20 raw texts (invalid JSON, NaN, 1e400, lone surrogate, 3000-deep nesting, "
         "100 kB id, 600 filters); with and without NIP-42; after every frame: probe REQ on the same and on a second connection, "
-        "periodically a fresh EVENT that must be accepted and pushed to a watcher's two subscriptions; non-trivial = the frame got an answer")
+        "periodically a fresh EVENT that must be accepted and pushed to a watcher's two subscriptions; a subscriber that stops reading "
+        "while max_limit+12 events match it; non-trivial = the frame got an answer")
     report.assumptions += ["quiescence after every frame", "the websocket layer (falcon/uvicorn) is replaced by in-memory callables; "
                            "frame size limits of the real server are not in scope"]
     try:
         gate_corr(report, drv, rng, 300 if tier == "quick" else 20000)
         for backend in ("sql", "kv"):
             ladder_corr(report, drv, backend)
+            stalled_reader(report, backend)
         for backend in ("sql", "kv"):
             for auth in ((False,) if tier == "quick" and backend == "kv" else (False, True)):
                 robustness(report, drv, backend, auth, rng, tier)
